@@ -831,3 +831,128 @@ def generate_cpr(read):
             "def getPositionSrc {α : Type} (H : CprOps α) (a b : Alt) : Bool × Option (Position α) :=", "  let bad := false",
             "  if a.f = b.f then (bad, none) else", "  let even := if a.f = 0 then a else b", "  let odd := if a.f = 0 then b else a", "  let latest := b"] + p.stmts("pos") + ["", "end Adsb.Gen", ""]
     return "\n".join(out)
+
+# ------------------------------------------------------------------------------------------------------------------------------
+# adsb.rs `AirborneVelocity::calculate` (+ `Sign::value`): the i16 / u16 arithmetic with every overflow check written out, and the
+# track-angle / speed formulas as terms over `TrackOps` (Gen/VelFn.lean).  The statement skeleton is recognised in order; the
+# arithmetic inside it is parsed.
+
+class IP:
+    """i16 expressions over named operands: + - * with Rust's overflow checks (collected in evaluation order), `as i16` (wrapping),
+    `.value()` of a Sign field.  names: Rust text -> (Lean text, type)"""
+    def __init__(self, toks, names, prefix):
+        self.t = toks; self.i = 0; self.names = names; self.lines = []; self.n = 0; self.prefix = prefix
+    def peek(self, k=0): return self.t[self.i + k] if self.i + k < len(self.t) else ("eof", None)
+    def eat(self, kind, val=None):
+        tok = self.peek()
+        if tok[0] != kind or (val is not None and tok[1] != val): raise Unsupported("velocity: expected %s %s, found %s" % (kind, val, tok))
+        self.i += 1; return tok
+    def tmp(self, e, check=True):
+        self.n += 1; v = "%s%d" % (self.prefix, self.n)
+        self.lines.append("  let %s : Int := %s" % (v, e))
+        if check: self.lines.append("  let bad := bad || i16out %s" % v)
+        return v
+    def expr(self):
+        a, ta = self.term()
+        while self.peek() in (("op", "+"), ("op", "-")):
+            op = self.eat("op")[1]; b, tb = self.term()
+            if ta != "i16" or tb not in ("i16", "lit"): raise Unsupported("velocity: + / - on %s, %s" % (ta, tb))
+            a = self.tmp("%s %s %s" % (a, op, b))
+        return a, ta
+    def term(self):
+        a, ta = self.factor()
+        while self.peek() == ("op", "*"):
+            self.i += 1; b, tb = self.factor()
+            if "i16" not in (ta, tb) or not {ta, tb} <= {"i16", "lit"}: raise Unsupported("velocity: * on %s, %s" % (ta, tb))
+            a = self.tmp("%s * %s" % (a, b)); ta = "i16"
+        return a, ta
+    def factor(self):
+        a, ta = self.atom()
+        while self.peek() == ("id", "as"):
+            self.i += 1; ty = self.eat("id")[1]
+            if ty != "i16" or ta not in ("u16", "u8", "i16"): raise Unsupported("velocity: cast %s as %s" % (ta, ty))
+            if ta == "u16": a = self.tmp("asI16 %s" % a, check=False)          # wrapping: never panics
+            else: a = "(%s : Int)" % a
+            ta = "i16"
+        return a, ta
+    def atom(self):
+        tok = self.peek()
+        if tok == ("op", "("):
+            self.i += 1; r = self.expr(); self.eat("op", ")"); return r
+        if tok[0] == "num" and "." not in tok[1]:
+            self.i += 1; return tok[1], "lit"
+        if tok[0] == "id":
+            # longest dotted path known
+            path = tok[1]; j = self.i + 1
+            while self.t[j:j + 1] == [("op", ".")] and self.t[j + 1:j + 2] and self.t[j + 1][0] == "id" and (path + "." + self.t[j + 1][1]) in set(self.names) | {k.rsplit(".", 1)[0] for k in self.names}:
+                path += "." + self.t[j + 1][1]; j += 2
+            if path in self.names:
+                lean, ty = self.names[path]; self.i = j
+                if ty == "sign":
+                    self.eat("op", "."); self.eat("id", "value"); self.eat("op", "("); self.eat("op", ")")
+                    return "signValueSrc %s" % lean, "i16"
+                return lean, ty
+        raise Unsupported("velocity: operand %s" % (tok,))
+
+def generate_velocity(read):
+    """-> text of Gen/VelFn.lean"""
+    lib = strip_comments(read("libadsb_deku/src/lib.rs")); adsb = strip_comments(read("libadsb_deku/src/adsb.rs"))
+    nrm = lambda s: re.sub(r"\s+", " ", s).strip()
+    # Sign: discriminants and value()
+    m = re.search(r"pub enum Sign \{\s*Positive = (\d+),\s*Negative = (\d+),?\s*\}", lib)
+    if not m: raise Unsupported("velocity: enum Sign")
+    dpos, dneg = int(m.group(1)), int(m.group(2))
+    head, body = fn_text(lib, r"pub fn value\(&self\) -> i16 \{")
+    m = re.fullmatch(r"match self \{ Self::Positive => (-?\d+), Self::Negative => (-?\d+),? \}", nrm(body))
+    if not m: raise Unsupported("velocity: Sign::value has another shape")
+    vpos, vneg = int(m.group(1)), int(m.group(2))
+    # field types the arithmetic relies on
+    for pat in (r"pub ew_vel: u16,", r"pub ns_vel: u16,", r"pub vrate_value: u16,", r"pub st: u8,", r"pub ew_sign: Sign,", r"pub ns_sign: Sign,", r"pub vrate_sign: Sign,"):
+        if not re.search(pat, adsb): raise Unsupported("velocity: field type " + pat)
+    head, body = fn_text(adsb, r"pub fn calculate\(&self\) -> Option<\(f32, f64, i16\)> \{")
+    b = nrm(body)
+    def take(pat, what):
+        nonlocal b
+        m = re.match(pat, b)
+        if not m: raise Unsupported("velocity: calculate: expected %s at: %s" % (what, b[:60]))
+        b = b[m.end():].lstrip(); return m
+    take(r"if let AirborneVelocitySubType::GroundSpeedDecoding\(ground_speed\) = &self\.sub_type \{", "the ground-speed subtype test")
+    take(r"if ground_speed\.ew_vel == 0 \|\| ground_speed\.ns_vel == 0 \{ return None; \}", "the zero-velocity test")
+    m = take(r"let scale = if self\.st == (\d+) \{ (\d+) \} else \{ (\d+) \};", "the scale")
+    sc = (int(m.group(1)), int(m.group(2)), int(m.group(3)))
+    names = {"ground_speed.ew_vel": ("ewVel", "u16"), "ground_speed.ns_vel": ("nsVel", "u16"), "ground_speed.ew_sign": ("ewSign", "sign"), "ground_speed.ns_sign": ("nsSign", "sign"),
+             "self.vrate_sign": ("vrSign", "sign"), "scale": ("scale", "i16")}
+    lines = []
+    comps = []
+    for var, pre in (("v_ew", "a"), ("v_ns", "b")):
+        m = take(r"let %s = f64::from\((.*?)\);(?= let )" % var, "the component " + var)
+        p = IP(ctokenize(m.group(1)), names, pre); r, ty = p.expr()
+        if p.peek()[0] != "eof" or ty != "i16": raise Unsupported("velocity: component " + var)
+        lines += p.lines; comps.append(r)
+    m = take(r"let h = (.*?); let heading = if h < 0\.0 \{ h \+ 360\.0 \} else \{ h \};", "the track angle")
+    fp = FP(ftokenize(m.group(1)), {"v_ew": "(H.ofInt vEw)", "v_ns": "(H.ofInt vNs)"}, {})
+    hexpr = fp.expr()
+    if fp.peek()[0] != "eof": raise Unsupported("velocity: track angle expression")
+    m = take(r"let vrate = self \.vrate_value \.checked_sub\((\d+)\) \.and_then\(\|v\| v\.checked_mul\((\d+)\)\) \.map\(\|v\| (.*?)\);(?= if let)", "the vertical-rate chain")
+    csub, cmul = int(m.group(1)), int(m.group(2))
+    p = IP(ctokenize(m.group(3)), dict(names, v=("v", "u16")), "r"); rr, ty = p.expr()
+    if p.peek()[0] != "eof" or ty != "i16": raise Unsupported("velocity: vertical rate expression")
+    take(r"if let Some\(vrate\) = vrate \{ return Some\(\(heading as f32, libm::hypot\(v_ew, v_ns\), vrate\)\); \} \} None$", "the result")
+    out = ["import Adsb.Velocity", "/-! GENERATED by /verif/tools/rust2lean.py (called from extract.py) from /repo/libadsb_deku/src/{adsb,lib}.rs on every run. Do not edit.",
+           "`AirborneVelocity::calculate`: the integer part with every i16 check written out (`bad`), and the track angle / speed as terms over `TrackOps`. -/",
+           "namespace Adsb.Gen", "open Adsb", "",
+           "/-- `Sign::value` on the discriminant read from the frame -/",
+           "def signValueSrc (s : Nat) : Int := if s = %d then %d else if s = %d then %d else 0" % (dpos, vpos, dneg, vneg), "",
+           "/-- the integer part of `calculate` for the ground-speed subtypes: (a check fired, (v_ew, v_ns, vrate) or no velocity) -/",
+           "def calcIntSrc (st ewSign ewVel nsSign nsVel vrSign vrVal : Nat) : Bool × Option (Int × Int × Int) :=", "  let bad := false",
+           "  if ewVel = 0 ∨ nsVel = 0 then (bad, none) else", "  let scale : Int := if st = %d then %d else %d" % sc] + lines + [
+           "  if vrVal < %d then (bad, none) else                       -- checked_sub" % csub,
+           "  let v := vrVal - %d" % csub,
+           "  if 65535 < v * %d then (bad, none) else                   -- checked_mul on u16" % cmul,
+           "  let v := v * %d" % cmul] + p.lines + [
+           "  (bad, some (%s, %s, %s))" % (comps[0], comps[1], rr), "",
+           "/-- the track angle of `calculate` (`heading`, before the cast to f32) -/",
+           "def headingSrc {α : Type} (H : TrackOps α) (vEw vNs : Int) : α :=", "  let h := %s" % hexpr, "  if H.neg? h then (H.add h (H.lit 360)) else h", "",
+           "/-- the ground speed of `calculate`: `libm::hypot(v_ew, v_ns)` -/",
+           "def speedSrc {α : Type} (H : TrackOps α) (hypot : α → α → α) (vEw vNs : Int) : α := hypot (H.ofInt vEw) (H.ofInt vNs)", "", "end Adsb.Gen", ""]
+    return "\n".join(out)
